@@ -35,6 +35,8 @@ func expectedOutcome(site string) string {
 		return "alloc"
 	case site == "nonterm":
 		return "timeout"
+	case strings.HasPrefix(site, "race:"):
+		return "race"
 	}
 	return "?"
 }
@@ -88,6 +90,14 @@ func TestVReplay(t *testing.T) {
 
 	timeout := 120 * time.Second
 	args := []string{"test", "-v", "-vet=off", "-count=1", "-run", "^TestVReplay$", "-overlay", ovPath, "-timeout", "60s", "./" + rel}
+	raceEnv := "VSYM_RACE=0"
+	if strings.HasPrefix(f.Site, "race:") {
+		// shared-state writes found by the executor are confirmed with the Go race detector: the
+		// harness runs its vsym.Concurrent operations from several goroutines
+		args = append([]string{"test", "-race"}, args[1:]...)
+		raceEnv = "VSYM_RACE=1"
+		timeout = 300 * time.Second
+	}
 	cmdline := fmt.Sprintf("cd %s && VSYM_MODEL=%s VSYM_REPO=%s GOFLAGS=-mod=mod GOPROXY=off go %s", ld.repo, modelPath, ld.repo, strings.Join(args, " "))
 	os.WriteFile(filepath.Join(dir, "cmd.txt"), []byte(cmdline+"\n"), 0o644)
 	ctx, cancel := context.WithTimeout(context.Background(), timeout)
@@ -106,9 +116,9 @@ func TestVReplay(t *testing.T) {
 			}
 		}
 	}
-	cmdline = strings.Replace(cmdline, "&& VSYM_MODEL", "&& "+tzEnv+" VSYM_MODEL", 1)
+	cmdline = strings.Replace(cmdline, "&& VSYM_MODEL", "&& "+tzEnv+" "+raceEnv+" VSYM_MODEL", 1)
 	os.WriteFile(filepath.Join(dir, "cmd.txt"), []byte(cmdline+"\n"), 0o644)
-	cmd.Env = append(os.Environ(), tzEnv, "VSYM_MODEL="+modelPath, "VSYM_REPO="+ld.repo, "GOFLAGS=-mod=mod", "GOPROXY=off", "GOSUMDB=off", "GOTOOLCHAIN=local")
+	cmd.Env = append(os.Environ(), tzEnv, raceEnv, "CGO_ENABLED=1", "VSYM_MODEL="+modelPath, "VSYM_REPO="+ld.repo, "GOFLAGS=-mod=mod", "GOPROXY=off", "GOSUMDB=off", "GOTOOLCHAIN=local")
 	out, err := cmd.CombinedOutput()
 	txt := string(out)
 	os.WriteFile(filepath.Join(dir, "output.txt"), out, 0o644)
@@ -123,6 +133,8 @@ func TestVReplay(t *testing.T) {
 		rr.Outcome = "timeout"
 	case strings.Contains(txt, "[build failed]") || strings.Contains(txt, "[setup failed]"):
 		rr.Outcome = "build-error"
+	case strings.HasPrefix(f.Site, "race:") && strings.Contains(txt, "WARNING: DATA RACE"):
+		rr.Outcome = "race"
 	case strings.Contains(txt, "VSYM-ASSERT-FAIL "):
 		i := strings.Index(txt, "VSYM-ASSERT-FAIL ")
 		l := txt[i+len("VSYM-ASSERT-FAIL "):]
